@@ -74,6 +74,7 @@ def run(ctx, props=PROPS, random_only=False, nrand=None):
         vg = ValueGen(u.ins, rng)
         san = "1" if u.san else "0"
         enc_lines = []
+        nc_ops = []
         for tid, name, x in tops:
             for _ in range(nvals):
                 try:
@@ -82,6 +83,9 @@ def run(ctx, props=PROPS, random_only=False, nrand=None):
                     break
                 boxed = 1 if x["kind"] == "union" else rng.randrange(2)
                 enc_lines.append(f"enc 0 {tid} {name} {boxed} | {vtext(v)}")
+                # structure-aware non-canonical spellings of the same value (must all be rejected)
+                for tweak, b in noncanonical_encodings(u.ins, tid, boxed, v, rng, n=2):
+                    nc_ops.append((f"rw1 {'1' if u.san else '0'} {tid} {name} {boxed} {b.hex() or '-'}", "noncanon-" + tweak, tid))
         rc, enc_out, err = run_lines(ref, [str(u.ir_path)], enc_lines)
         if rc != 0 or len(enc_out) != len(enc_lines):
             with lock:
@@ -107,6 +111,7 @@ def run(ctx, props=PROPS, random_only=False, nrand=None):
                 if x.get("tag") and rng.random() < 0.5:
                     rb = x["tag"].to_bytes(4, "little") + rb
                 ops.append((f"rw1 {san} {tid} {name} {rng.randrange(2) if x['kind'] != 'union' else 1} {rb.hex() or '-'}", "random", tid))
+        ops += nc_ops
         lines = [o[0] for o in ops]
         rc1, mo, err1 = run_lines(ref, [str(u.ir_path)], lines)
         go = run_lines_resilient(u.gen.exe, [], lines, timeout=300, mem_gb=3, max_restarts=200)
@@ -159,6 +164,7 @@ def run(ctx, props=PROPS, random_only=False, nrand=None):
             stats["inputs"] += len(lines)
             for k in ("valid", "mutated", "random"):
                 stats[k] += sum(1 for o in ops if o[1] == k)
+            stats["noncanonical"] = stats.get("noncanonical", 0) + len(nc_ops)
             for k, v in uverd.items():
                 verdicts[k] = verdicts.get(k, 0) + v
             bad.extend(ubad)
